@@ -33,6 +33,11 @@ def _is_if_assigning(var):
 
 
 def anchors(a: Anchors):
+    RT = "acryo/_rotation.py"
+    a.expr("rot_n", RT, "_seq_of_max_and_step_to_quat", ("assign", "n"), {"max_rot": "Q", "step": "Q"}, want="Z")
+    a.fact("rot_linspace_as_modelled", RT, "_seq_of_max_and_step_to_quat", "step == 0 -> zeros(1); else linspace(-n*step, n*step, 2n+1); product over axes in order",
+           lambda fn: (lambda t: "ifstep==0:angles.append(np.zeros(1))else:n=int(max_rot/step)angles.append(np.linspace(-n*step,n*step,2*n+1))" in t
+                       and "forangsinitertools.product(*angles):" in t and "formax_rot,stepin_rotations:" in t)(norm(ast.unparse(fn))))
     sub = lambda n: isinstance(n, ast.Subscript) and ast.unparse(n.value) == "self.quaternions"
     a.expr("align_quat_index", AB, "RotationImplemented.align", ("find", sub, 0, "self.quaternions[...] index"),
            {"iopt": "Z", "T": "Z", "K": "Z"}, env={"self._n_templates": ("T", "Z"), "self._n_rotations": ("K", "Z")},
@@ -346,6 +351,35 @@ def oracle_real(ck, rng):
                          inp=c, key={"site": "model.fit", "T>1": T > 1, "K>1": K > 1}, oracle="fit_identifies_candidate")
 
 
+def corr_rotation_set(ck, rng):
+    """angles searched for a (max, step) range on one axis, decoded from the quaternions, against the model"""
+    from acryo._rotation import _seq_of_max_and_step_to_quat
+    from scipy.spatial.transform import Rotation
+    from fractions import Fraction
+    cases = []
+    specs = [(20, 15), (30, 10), (9, 10), (45, 0), (0, 5), (27, 20), (100, 90), (44, 30), (12.5, 2.5), (7.4, 2.5), (90, 22.5), (10, 3), (59.9, 20), (60, 20), (60.1, 20)]
+    for _ in range(10 if ck.tier == "quick" else 150):
+        st = float(rng.choice([1.0, 2.5, 3.0, 7.5, 10.0, 0.5]))
+        specs.append((float(np.round(rng.uniform(0, 40), 1)), st))
+    for mx, st in specs:
+        for axis in range(3):
+            rr = [(0, 0)] * 3; rr[axis] = (mx, st)
+            q = _seq_of_max_and_step_to_quat(tuple(rr))
+            rv = np.degrees(Rotation.from_quat(q).as_rotvec())
+            # a one-axis range gives rotations about one fixed axis: signed angle along the dominant component
+            ax_ = int(np.argmax(np.abs(rv).max(axis=0))) if len(rv) > 1 else 0
+            ang = sorted(float(x) for x in rv[:, ax_])
+            off = float(np.abs(np.delete(rv, ax_, axis=1)).max()) if len(rv) else 0.0
+            ck.oracle_count("rotation_range_is_single_axis", 1, 1)
+            if off > 1e-3:
+                ck.violation(what=f"range {rr}: the rotations are not about a single axis (off-axis component {off:.4f} deg)", inp={"ranges": rr},
+                             key={"site": "rotation-set", "symptom": "off-axis"}, oracle="rotation_range_is_single_axis")
+            cases.append((f"(check_rot_angles {ql(Fraction(str(mx)))} {ql(Fraction(str(st)))} {qlist([frac(round(a, 6)) for a in ang])})",
+                          {"max": mx, "step": st, "axis": axis, "angles": ang}))
+    ck.corr_run("rotation_set", ["AcryoGen.Anchors_C06", "Acryo.C06.RotSet"], cases, shard=400, observable=True,
+                describe=lambda c: {"site": "rotation-set", "multiple": (c["step"] == 0 or abs(c["max"] / c["step"] - round(c["max"] / c["step"])) < 1e-9)})
+
+
 def oracle_rotation_set(ck, rng):
     from acryo._rotation import normalize_rotations
     from scipy.spatial.transform import Rotation
@@ -376,12 +410,13 @@ def run(ck: common.Check):
     a = Anchors(common.REPO)
     anchors(a)
     ck.write_anchors(PID, a)
-    ck.build(["C06"], ["C06/Property.v"])
+    ck.build(["C06"], ["C06/Property.v", "C06/PropertyRotSet.v"], extra=["C06/RotSet.v"])
     rng = np.random.default_rng(ck.seed + 6006)
     corr_scripted(ck, rng)
     corr_loader(ck, rng)
     oracle_real(ck, rng)
     oracle_rotation_set(ck, rng)
+    corr_rotation_set(ck, np.random.default_rng(ck.seed + 60606))
 
 
 def replay(data):
